@@ -8,6 +8,8 @@ from ..astutil import CondUnknown, eval_cond, inside
 from ..cfg import CFG, cond_strings
 from ..core import AnalysisError, const_value
 from ..defuse import DefUse, Terms, show, walk_term
+from ..defuse import key as tkey
+from ..tutil import no_uids
 from ..flow import Flow
 from ..paths import path_variants
 from ..tutil import (bound_args, concat_parts, mapped_over, np_call,
@@ -56,10 +58,12 @@ def run(ctx):
     _first_seen_wins(ctx, prog.func(AC))
     _rollup_levels(ctx, prog.func("mokapot.brew_rollup.do_rollup"))
     _dedup_switch(ctx)
+    _chunk_dedup_keeps_best(ctx)
     _cli_mapping(ctx)
     _target_decoy_routing(ctx)
     _retained_rows(ctx)
     chunk_size_agreement(ctx, "C03e-chunk-size-agreement")
+    header_data_agreement(ctx, "C03e-header-matches-rows")
     _collections_independent(ctx, prog.func(AC))
 
 
@@ -396,6 +400,156 @@ def _rollup_levels(ctx, f):
 
 
 # ------------------------------------------------------------------ c
+def header_data_agreement(ctx, rule_id):
+    """The result files get their header from one list (assign_confidence)
+    and their rows, by position, from another (Confidence.write_to_disk):
+    the two column sequences must agree role by role."""
+    prog = ctx.prog
+    g = prog.func(AC)
+    T = Terms(DefUse(prog, g))
+
+    def role(x):
+        if x[0] == "star":
+            return ("splice", tkey(no_uids(x[1])))
+        if x[0] == "const" and isinstance(x[1], str):
+            return ("name", x[1].lower().replace("-", "").replace("_", ""))
+        if x[0] == "attr":
+            return ("attr", x[2])
+        return ("other", tkey(no_uids(x)))
+
+    def lists_in(t):
+        if t[0] == "phi":
+            return [y for x in t[1] for y in lists_in(x)]
+        return [t] if t[0] == "list" else []
+
+    headers, metas = [], []
+    for n in ast.walk(g.node):
+        if isinstance(n, ast.Call) and ast.unparse(n.func).endswith(
+                "TabularDataWriter.from_suffix"):
+            cols = dict((k.arg, k.value) for k in n.keywords).get(
+                "columns", n.args[1] if len(n.args) > 1 else None)
+            if cols is None:
+                continue
+            for lst in lists_in(T.of(cols)):
+                names = [x[1] for x in lst[1] if x[0] == "const"]
+                if "PSMId" in names and any(
+                        x[0] == "attr" and x[2] == "target_column"
+                        for x in lst[1]):
+                    metas.append(lst)
+                elif "PSMId" in names:
+                    headers.append(lst)
+    headers = list({tkey(no_uids(h)): h for h in headers}.values())
+    metas = list({tkey(no_uids(m)): m for m in metas}.values())
+    ctx.require(len(headers) == 1 and len(metas) == 1,
+                f"{g.qual}: header list / level-file column list not "
+                f"found ({len(headers)} / {len(metas)})")
+    H = [role(x) for x in headers[0][1]]
+    M = [role(x) for x in metas[0][1]]
+    # how write_to_disk derives the data order from the level-file columns
+    w = prog.func("mokapot.confidence.Confidence.write_to_disk")
+    Tw = Terms(DefUse(prog, w))
+    wc = [n for n in ast.walk(w.node) if isinstance(n, ast.Call)
+          and ast.unparse(n.func) == "write_confidences"]
+    ctx.require(len(wc) == 1, f"{w.qual}: write_confidences call not found")
+    wcf = prog.func("mokapot.confidence_writer.write_confidences")
+    out = Tw.of(prog.bind(wcf, wc[0])["out_columns"])
+    alts = out[1] if out[0] == "phi" else (out,)
+    SELF = ("param", "self")
+    P = ("attr", SELF, "_protein_column")
+    base = moved = None
+    for a in alts:
+        if a[0] == "mut" and a[2] == "append" and a[3] == (P,) and \
+                a[1][0] == "mut" and a[1][2] == "remove" and \
+                a[1][3] == (P,):
+            moved = a[1][1]
+        else:
+            base = a
+    ok_shape = base is not None and (moved is None or moved == base) and \
+        base[0] == "bin" and base[1] == "+" and base[3][0] == "list" and \
+        base[2][0] == "comp" and len(base[2][3]) == 1
+    if ok_shape:
+        names, it, conds = base[2][3][0]
+        ok_shape = (base[2][2] == ("elem", it) and conds == (
+            ("cmp", "!=", ("elem", it), ("attr", SELF, "_target_column")),))
+    ctx.require(ok_shape, f"{w.qual}: derivation of the output column order "
+                f"not recognised: {show(out, 200)}")
+    D = [r for r in M if r != ("attr", "target_column")] + [
+        role(x) for x in base[3][1]]
+    prot = [r for r in D if r[0] == "name" and "protein" in r[1]]
+    if moved is not None and len(prot) == 1:
+        D = [r for r in D if r != prot[0]] + prot
+    ctx.check(D == H, rule_id, g,
+              "header columns and data columns of the result files agree "
+              "position by position",
+              f"header order {[r[1][:20] for r in H]} but rows are written "
+              f"as {[r[1][:20] for r in D]}: values appear under the wrong "
+              "column names whenever extra level columns are present",
+              node=g.node)
+
+
+def _chunk_dedup_keeps_best(ctx):
+    """The per-chunk removal of duplicate spectra keeps the FIRST row of
+    each spectrum: that is the best one only if the chunk has been sorted by
+    descending score before."""
+    prog = ctx.prog
+    reach = prog.reachable([AC])
+    n = 0
+    for q in sorted(reach):
+        f = prog.funcs.get(q)
+        if f is None or isinstance(f.node, ast.Lambda):
+            continue
+        T = None
+        for call in ast.walk(f.node):
+            if not (isinstance(call, ast.Call) and isinstance(
+                    call.func, ast.Attribute)
+                    and call.func.attr == "drop_duplicates"):
+                continue
+            subset = call.args[0] if call.args else {
+                k.arg: k.value for k in call.keywords}.get("subset")
+            if subset is None or "spectrum_columns" not in ast.unparse(
+                    subset):
+                continue
+            n += 1
+            T = T or Terms(DefUse(prog, f))
+            recv = T.of(call.func.value)
+            kws = {k.arg: T.of(k.value) for k in call.keywords if k.arg}
+            keep = kws.get("keep", ("const", "first"))
+            sorted_desc = False
+            t = recv
+            while True:
+                if t[0] == "phi":
+                    break
+                if t[0] in ("mut", "mcall") and t[2] == "sort_values":
+                    a, k = (t[3], dict(t[4]))
+                    by = k.get("by", a[0] if a else None)
+                    asc = k.get("ascending", a[2] if len(a) > 2 else
+                                ("const", True))
+                    if by in (("const", "score"),
+                              ("list", (("const", "score"),))) and \
+                            asc == ("const", False):
+                        sorted_desc = True
+                    break
+                if t[0] in ("mut", "store", "mcall") and len(t) > 1 and \
+                        isinstance(t[1], tuple) and t[2] not in (
+                            "sample", "sort_index", "iloc"):
+                    if t[0] == "mcall" and t[2] not in (
+                            "reset_index", "copy", "assign", "astype"):
+                        break
+                    t = t[1]
+                    continue
+                break
+            ctx.check(sorted_desc and keep == ("const", "first"),
+                      "C03b-chunk-dedup-keeps-best", f,
+                      "duplicate spectra are dropped from a chunk that was "
+                      "sorted by descending score (so the first = best row "
+                      "of each spectrum survives)",
+                      f"drop_duplicates(keep={show(keep, 20)}) is applied "
+                      f"to {show(recv, 160)}: an arbitrary (not the best) "
+                      "PSM of a spectrum survives, and which one depends on "
+                      "how the rows fall into chunks", node=call)
+    ctx.floor("C03b-chunk-dedup-sites", n, 1)
+
+
 def _dedup_switch(ctx):
     prog = ctx.prog
     flow = Flow(prog)
